@@ -314,14 +314,14 @@ func TestVerifC07Lab(t *testing.T) {
 				step = "StepCached"
 			}
 			zone := vC07Parse(rs.servers.Zone)
-			fkey := ""
+			goFailD := ""
 			if rs.level < len(zone) {
-				fkey = "glue-level-cached-descent"
+				goFailD = fmt.Sprintf("resolution continued with level %d at the %d-label zone %s: the glue bailiwick test would run too shallow", rs.level, len(zone), rs.servers.Zone)
 			}
 			emit(map[string]any{
 				"k":          "descent-" + strings.ToLower(step[4:]),
 				"coq":        fmt.Sprintf("CaseDescent %s [%s %s] %s %d", vC07Parse(dc.parent).coq(), step, vC07Parse(dc.child).coq(), zone.coq(), rs.level),
-				"nontrivial": true, "fkey": fkey,
+				"nontrivial": true, "go_fail": goFailD,
 				"desc": map[string]any{"parent_zone": dc.parent, "parent_level": dc.level, "referral": dc.child, "delegation_cached": cached,
 					"continued_with_zone": rs.servers.Zone, "continued_with_level": rs.level},
 			})
@@ -442,12 +442,10 @@ func TestVerifC07Lab(t *testing.T) {
 
 		// Go-side ground truth on the first reply: a record owned outside the attacker's zones must be genuine
 		goFail := ""
-		fkey := ""
 		if rep != nil {
 			for _, rr := range rep.Answer {
 				if !l.truth(rr) {
 					goFail = "reply to " + qs + " relays " + vC07Ident(rr) + ", which the zone owning that name never published"
-					fkey = "answer-relays-out-of-zone-tail"
 				}
 			}
 		}
@@ -456,30 +454,26 @@ func TestVerifC07Lab(t *testing.T) {
 				if goFail == "" {
 					goFail = "reply to " + qs + " relays " + sp.String() + " sent by the evil.l1. server"
 				}
-				fkey = "answer-relays-out-of-zone-tail"
 			}
 		}
 		for _, g := range glueObs {
 			if !vC07InEvil(g.String()) {
 				goFail = "glue cache holds the attacker's address for " + g.String()
-				fkey = ""
 			}
 		}
 		for _, d := range delegObs {
 			if !vC07InEvil(d.String()) {
 				goFail = "delegation cache holds the attacker's servers for " + d.String()
-				fkey = ""
 			}
 		}
 		if len(bad) > 0 {
 			goFail = strings.Join(bad, "; ")
-			fkey = ""
 		}
 		emit(map[string]any{
 			"k": "attack-" + tags[0],
 			"coq": fmt.Sprintf("CaseLab %s 2 (mk_q %s 1 1) %s [%s] %s %s %v", vC07N(vC07Evil).coq(), qn.coq(), attack.coq(),
 				strings.Join(vis, ";"), vC07CoqNames(glueObs), vC07CoqNames(delegObs), len(bad) > 0),
-			"nontrivial": true, "go_fail": goFail, "fkey": fkey,
+			"nontrivial": true, "go_fail": goFail,
 			"desc": map[string]any{"zone": vC07Evil, "question": qs, "qname_min_level": minLevel, "attack": tags,
 				"sent_answer": vC07DescRRs(attack.answer), "sent_authority": vC07DescRRs(attack.ns), "sent_additional": vC07DescRRs(attack.extra), "sent_rcode": attack.rcode,
 				"client_reply_answer": repAns, "client_rcode": func() int {
@@ -560,7 +554,7 @@ func TestVerifC07Lab(t *testing.T) {
 			"k": "cached-descent-live",
 			"coq": fmt.Sprintf("CaseLab %s 2 (mk_q %s 1 1) %s [] %s [] %v", vC07N(vC07Evil3).coq(), vC07N("x.sub.evil.l3.").coq(), attack.coq(),
 				vC07CoqNames(glueObs), len(bad) > 0),
-			"nontrivial": true, "go_fail": goFail, "fkey": "glue-level-cached-descent",
+			"nontrivial": true, "go_fail": goFail,
 			"desc": map[string]any{"zone": vC07Evil3, "question": "x.sub.evil.l3.", "qname_min_level": 0,
 				"how":             "the root delegates evil.l3. (two labels at once); a second client query in flight meets the delegation cached by the first",
 				"sent_authority":  vC07DescRRs(attack.ns), "sent_additional": vC07DescRRs(attack.extra),
